@@ -669,6 +669,15 @@ fn ssaead__new_decoder(kind: CipherKind, key: &[u8], salt: &[u8]) -> Result<Chun
     Ok(ChunkDecoder::new(auth))
 }
 
+//@@ octo-squirrel/src/codec/shadowsocks/aead.rs:24-29  fn hkdfsha1  sha=d2a19fc8c51673ee
+#[verifier::external_body] fn verif_lit_8366e3dbc5() -> (r: &'static [u8]) ensures r@ =~= seq![115u8, 115u8, 45u8, 115u8, 117u8, 98u8, 107u8, 101u8, 121u8] { b"ss-subkey" }
+fn ssaead__hkdfsha1(ikm: &[u8], salt: &[u8]) -> Result<Vec<u8>, InvalidLength> {
+    let hk = Hkdf::<Sha1>::new(Some(salt), ikm);
+    let mut okm = vec![0; salt.len()];
+    hk.expand(verif_lit_8366e3dbc5(), &mut okm)?;
+    Ok(okm)
+}
+
 //@@ octo-squirrel/src/codec/shadowsocks/aead.rs:31-34  fn new_auth  sha=8e34244a55e2383f
 fn ssaead__new_auth(kind: CipherKind, key: &[u8]) -> Authenticator {
     let method = CipherMethod::new(kind, key);
